@@ -25,6 +25,8 @@ RULES = {
     "C03.c": "fitted attributes assigned lazily outside fit (caches) are reassigned or deleted on every normal path of fit",
     "C03.d": "on every path of fit (helpers inlined), a read of self.<name>_ / hasattr(self,'<name>_') is dominated by an assignment made by this fit",
     "C03.e": "a fitted attribute that only some fit paths assign is read by predict-reachable code only under the guard it was written under",
+    "C03.k": "a cache of fitted pipeline steps is keyed by the data the step is fitted on (the step's own input), the same variable handed to the fitting call and to transform on a hit",
+    "C03.l": "on fit paths the iteration order of a set (hash order) does not reach fitted state: a set is numbered or laid out in sequence only after sorted()",
     "C03.g": "where predict-time code has scikit-learn check the input against n_features_in_, every fit path records it (validator with reset, parent fit, or assignment): no width of an earlier fit survives a refit",
     "C03.f": "the object trained by fit is a clone or a fresh object, never the one held in a hyper-parameter (whose fitted state, warm starts included, would survive into the next fit); documented in-place wrappers listed",
 }
@@ -721,10 +723,108 @@ def check_g(ck, repo):
     return n
 
 
+def check_step_cache(ck, repo):
+    """C03.k: a cache of fitted steps is keyed by the data the step is fitted on.  In every method
+    that looks a fitted object up with `<cache>.get(K)` and stores it with `<cache>.cache(K, obj)`,
+    the entry K["X"] is the variable handed as data to the fitting call of the miss branch and to
+    `.transform` of the hit branch (otherwise a later fit with other upstream parameters reuses a
+    step fitted on the earlier upstream output)."""
+    n = 0
+    for fi in repo.all_functions.values():
+        if not fi.module.relpath.startswith("mlinsights/") or fi.cls is None:
+            continue
+        nodes = list(own_nodes(fi.node))
+        gets = [c for c in nodes if isinstance(c, ast.Call) and isinstance(c.func, ast.Attribute) and c.func.attr == "get" and src_of(c.func.value).startswith("self.cache") and len(c.args) == 1 and isinstance(c.args[0], ast.Name)]
+        puts = [c for c in nodes if isinstance(c, ast.Call) and isinstance(c.func, ast.Attribute) and c.func.attr == "cache" and src_of(c.func.value).startswith("self.cache") and len(c.args) == 2 and isinstance(c.args[0], ast.Name)]
+        if not gets or not puts:
+            continue
+        K = gets[0].args[0].id
+        if any(c.args[0].id != K for c in gets + puts):
+            ck.violated("C03.k", fi, puts[0], f"fitted steps are looked up under {gets[0].args[0].id} but stored under {puts[0].args[0].id}")
+            continue
+        n += 1
+        keyed = [s_ for s_ in nodes if isinstance(s_, ast.Assign) and isinstance(s_.targets[0], ast.Subscript) and src_of(s_.targets[0].value) == K and isinstance(s_.targets[0].slice, ast.Constant) and s_.targets[0].slice.value == "X"]
+        if len(keyed) != 1 or not isinstance(keyed[0].value, ast.Name):
+            ck.unknown("C03.k", fi, keyed[0] if keyed else f"{K}['X']", f"the entry of the cache key that identifies the training data is not a single store {K}['X'] = <variable>")
+            continue
+        V = keyed[0].value.id
+        fits = [c for c in nodes if isinstance(c, ast.Call) and ("fit_transform_one" in src_of(c.func) or (isinstance(c.func, ast.Attribute) and c.func.attr in ("fit", "fit_transform"))) and c.lineno > keyed[0].lineno]
+        trs = [c for c in nodes if isinstance(c, ast.Call) and isinstance(c.func, ast.Attribute) and c.func.attr == "transform" and c.lineno > keyed[0].lineno]
+        data_args = []
+        for c in fits:
+            a = c.args[1] if "fit_transform_one" in src_of(c.func) and len(c.args) > 1 else (c.args[0] if c.args else None)
+            data_args.append((c, src_of(a) if a is not None else None))
+        data_args += [(c, src_of(c.args[0]) if c.args else None) for c in trs]
+        bad = [(c, a) for c, a in data_args if a != V]
+        rebound_between = [s_ for s_ in nodes if isinstance(s_, ast.Name) and isinstance(s_.ctx, ast.Store) and s_.id == V and keyed[0].lineno < s_.lineno < min((c.lineno for c, _ in data_args), default=0)]
+        if not data_args:
+            ck.unknown("C03.k", fi, keyed[0], "no fitting call or transform follows the cache key: nothing to compare the key with")
+        else:
+            ck.verdict(not bad and not rebound_between, "C03.k", fi, keyed[0], f"the cache key holds {V}, the data the step is fitted on and transforms ({len(data_args)} calls)", f"the cache key holds {V} but the step is fitted on / transforms {sorted({a or '?' for _, a in bad})}: a step fitted on the output of an earlier configuration of the upstream steps is reused by a later fit")
+    return n
+
+
+def check_set_order(ck, repo):
+    """C03.l: the iteration order of a set (hash order: it changes with PYTHONHASHSEED for strings)
+    does not reach fitted state: on fit paths a set is never numbered or laid out in sequence
+    (enumerate / zip / list / tuple / array / a comprehension that builds a list or dict) unless it
+    went through sorted() first."""
+    from .sem import expander, stmt_of
+
+    ex = expander(repo)
+    n = 0
+    ORDERING = {"enumerate", "zip", "list", "tuple", "numpy.array", "numpy.asarray", "dict"}
+
+    def is_set(e, fi, st):
+        if isinstance(e, (ast.Set, ast.SetComp)):
+            return True
+        try:
+            with ex.lenient():
+                t = ex.text(e, fi, st)
+        except Exception:
+            t = src_of(e)
+        return t.startswith(("set(", "frozenset(")) and t.endswith(")") and t.count("(") == t.count(")") and _closes_at_end(t)
+
+    for fi in repo.all_functions.values():
+        if not fi.module.relpath.startswith("mlinsights/") or fi.cls is None or fi.name not in ("fit", "_fit", "fit_transform", "partial_fit"):
+            continue
+        for c in own_nodes(fi.node):
+            sites = []
+            if isinstance(c, ast.Call) and src_of(c.func) in ORDERING:
+                sites = [a for a in c.args if not isinstance(a, ast.Starred)]
+            elif isinstance(c, (ast.ListComp, ast.DictComp, ast.GeneratorExp)):
+                sites = [g.iter for g in c.generators]
+            # the sequence goes straight into a call that forgets the order: nothing reaches the state
+            par = getattr(c, "_parent", None)
+            if isinstance(par, ast.Call) and src_of(par.func) in ("sorted", "set", "frozenset", "len", "sum", "min", "max", "any", "all", "numpy.sort", "numpy.unique") and c in par.args:
+                continue
+            for a in sites:
+                st = stmt_of(c)
+                n += 1
+                if is_set(a, fi, st):
+                    ck.violated("C03.l", fi, st, f"`{src_of(a)[:50]}` is a set and `{src_of(c)[:70]}` numbers or lays out its elements in iteration order: for strings that order changes with the interpreter's hash seed, so the same data, parameters and seeds give different fitted state in two runs (sort the set first)")
+    ck.holds("C03.l", None, f"{n} ordering sites on fit paths", "no set is numbered or laid out in iteration order", file="mlinsights", function="*.fit", line=1, nontrivial=False)
+    return n
+
+
+def _closes_at_end(t):
+    depth = 0
+    for i, ch in enumerate(t):
+        if ch == "(":
+            depth += 1
+        elif ch == ")":
+            depth -= 1
+            if depth == 0:
+                return i == len(t) - 1
+    return False
+
+
 def run(ck):
     repo = ck.repo
     for k, v in RULES.items():
         ck.rule(k, v)
+    ck.extra["step_caches"] = check_step_cache(ck, repo)
+    ck.extra["set_order_sites"] = check_set_order(ck, repo)
     na = check_a(ck, repo)
     check_b(ck, repo)
     check_seed_truthiness(ck, repo)
